@@ -180,7 +180,7 @@ ADDENDA = {
     "C08": "all 810 (A, B, archive) instances over two paths x two contents in thorough (a seeded 60 in quick), every kill point each",
     "C09": "a file in flight that replaces one of the same size; a 200 000-byte file (between one pipe write and one transfer chunk) in every direction; conformance tolerant of one unlogged call per thread with several jobs",
     "C11": "names that a cleaning step would turn into '..' or an absolute path (NUL, blanks, line ends, per-cent escapes, full-width dots); very long refused paths (plain, control characters, backslashes, 2/3/4-byte characters at every alignment), names that contain backslashes and dots; 'refused' is recognised by effect, not by the reply's wording",
-    "C12": "frames longer than their CBOR item (zero filler, a complete request as filler), such frames closed inside the filler, refused paths of multi-byte characters, staging files of dead servers in the served tree, a Put longer than its input; time-outs are re-checked with a longer limit before they count",
+    "C12": "frames longer than their CBOR item (zero filler, a complete request as filler), such frames closed inside the filler, a Put under a path that is a file (request fails, session goes on), refused paths of multi-byte characters, staging files of dead servers in the served tree, a Put longer than its input; time-outs are re-checked with a longer limit before they count",
     "C13": "names with a backslash, a non-UTF-8 name (unsendable trees), a file named like another name's directory (blocked runs), a hub root containing colons, scripted clash histories and scripted stale-listing windows with a file/directory clash (known finding H26 for the clashing file only); run-failed labels are reports, not alarms; the check refuses to pass when no race could be produced",
     "C16": "a zero block and a block tuned to byte sum m*65521, each reached by sliding; a 24 MiB run of new data before a known tail (thorough); engine / signature block-size mismatch at the library level",
     "C17": "marathon runs of 26-70 million consecutive slides judged at checkpoints by RollingTrace!New",
